@@ -784,7 +784,17 @@ func restRules(c *Check, w *World, tb *TB, ef *Effects, pfx string, only []strin
 	checkFallback("AlgorithmFromStr", map[string]string{"SHA1": "0", "SHA256": "1", "SHA512": "2"}, "0")
 	checkFallback("DigitsFromStr", map[string]string{"6": "6", "8": "8", "9": "9", "10": "10"}, "6")
 
-	// ---- R18.5 statelessness of the service layer ----------------------------------------------------
+	ruleRESTStateless(c, w, tb, ef, pfx+".5", false)
+}
+
+// ruleRESTStateless: the service layer keeps no request state — no package-level variable written, no pooled
+// request objects, no locks; with perHandler, every handler decodes its request into a fresh per-request local
+// (shared with C11/C12, where a request object shared between requests is the REST form of "a result influenced
+// by another call's data").
+func ruleRESTStateless(c *Check, w *World, tb *TB, ef *Effects, rule string, perHandler bool) {
+	if w.SPkgs[ApiPath] == nil {
+		return
+	}
 	apiFns := w.ModuleFuncs(ApiPath)
 	var nonLife []*ssa.Function
 	for _, f := range apiFns {
@@ -794,13 +804,27 @@ func restRules(c *Check, w *World, tb *TB, ef *Effects, pfx string, only []strin
 		}
 		nonLife = append(nonLife, f)
 	}
-	ruleNoPkgState(c, w, tb, ef, pfx+".5", nonLife)
+	ruleNoPkgState(c, w, tb, ef, rule, nonLife)
 	for _, f := range nonLife {
 		for _, g := range poolCalls(f, "Get") {
-			c.Bad(pfx+".5", FuncName(f), "pooled-request-state", "the service layer takes objects from a sync.Pool: fields or buffers left by an earlier request can reach a later one", w.InstrPos(g))
+			c.Bad(rule, FuncName(f), "pooled-request-state", "the service layer takes objects from a sync.Pool: fields or buffers left by an earlier request can reach a later one", w.InstrPos(g))
 		}
 	}
-	ruleNoConcurrencyPrimitives(c, w, pfx+".5", nonLife)
+	ruleNoConcurrencyPrimitives(c, w, rule, nonLife)
+	if perHandler {
+		n := 0
+		for _, f := range nonLife {
+			hi := analyseHandler(w, tb, f)
+			if hi.unm == nil {
+				continue
+			}
+			n++
+			c.Decide(hi.reqRoot == "alloc", rule, FuncName(f), "request-object", "the request is decoded into a fresh per-request local", "the request is decoded into "+hi.reqRoot+": fields omitted by a request keep the values of an earlier request, and concurrent requests write the same object", w.InstrPos(hi.unm))
+		}
+		if n == 0 {
+			c.Unk(rule, "api", "request-object", "no request decoding (json.Unmarshal) found in the service layer", "")
+		}
+	}
 }
 
 func init() {
